@@ -552,6 +552,11 @@ func deferRecovers(d *ssa.Defer) bool {
 	case *ssa.Function:
 		fn = v
 	}
+	if fn == nil {
+		if sc := d.Call.StaticCallee(); sc != nil && len(sc.Blocks) > 0 {
+			fn = sc // a method value deferred directly: recover() in its own body is effective
+		}
+	}
 	return fn != nil && callsRecover(fn)
 }
 
